@@ -799,6 +799,10 @@ def _array_len(body, x):
     x = _strip(x)
     name, idx = None, None
     if isinstance(x, tuple) and x:
+        if x[0] == "repeat" and len(x) > 2 and str(x[2]).isdigit():
+            return int(x[2])            # `[v; N]`
+        if x[0] == "array":
+            return len(x[1])
         if x[0] == "multi" and len(x) > 2:
             name = x[2]
         elif x[0] in ("local", "param") and len(x) > 2:
